@@ -72,9 +72,10 @@ PROPS = {
     "C13": dict(
         lean_modules=["L4.Props.C13", "L4.Expect.C13"],
         stages=[dict(name="listener", pkg="./layer4/", test="TestVerifListener", files=L4 + ["layer4/verif_route_test.go", "layer4/verif_listener_test.go", "layer4/verif_hooks_test.go"], nq=30, nt=600,
-                     streams=["listener", "ltrace"], lean_streams=["ltrace"])],
+                     streams=["listener", "ltrace"], lean_streams=["ltrace"]),
+                dict(FULLSTACK, only_sigs=["wrapper-handoff", "wrapper-consumed"])],
         level_text='Kernel-checked on a transition system of the listener wrapper (accept loop, handler goroutines, connChan with capacity, done, wg, Close, consumer Accept) for every interleaving: a connection is delivered or closed by layer4 at most once in total (closed ones are never delivered), no send on a closed channel, the channel is closed only when no handler is left, and in every terminal state after Close everything accepted has been delivered or closed and no handler remains. The protocol facts the model encodes (close(connChan) only after wg.Wait, close(done) then drain, pipeConnection returns errHijacked, handle closes unless hijacked, Accept selects both channels) are regenerated from listener.go and checked by theorem on every run; the real listener is driven over loopback TCP with tagged clients of five classes, slow consumers and Close at arbitrary points, and judged for exactly-once delivery, intact streams, closure and goroutine drain; in addition the hook events of every history (accept, pipeStart / pipeSend, finish, consume, drain, close, loopExit, closeChan; build tag verif) are linearised and replayed through the runActs function of the model itself: a real execution that is not a run of the model breaks the correspondence.',
-        level_note='Trusted: Lean kernel, extractor AST patterns, harness, Go channel / WaitGroup semantics as modelled. Partial: delivery after TLS termination with connection state exposed is not exercised (no TLS in the harness); the trace monitor searches for a linearisation (hooks fire after the operation they report, so reports of different goroutines may be reordered; the model over-approximates channel FIFO order for that reason); the replay through runActs decides.',
+        level_note='Trusted: Lean kernel, extractor AST patterns, harness, Go channel / WaitGroup semantics as modelled. Delivery after TLS termination with the connection state exposed is exercised by the full-stack stage (real HTTP server behind the listener wrapper, https and http clients); the trace monitor searches for a linearisation (hooks fire after the operation they report, so reports of different goroutines may be reordered; the model over-approximates channel FIFO order for that reason); the replay through runActs decides.',
         rule='histories of 1-64 concurrent clients (fall-through, partially consumed, terminally consumed, rejected by matcher error, multi-round prefetch), prompt or accept-all-then-read consumers, Close after 0/1/3/10 accepts or after all deliveries, GOMAXPROCS 1-16 (= channel capacity), plus address-only routes with a consumer reading after the matching timeout; non-trivial = history completed; distinct = distinct summaries',
         assumptions=['connections still in the kernel accept queue are reset when the inner listener closes (counts as closed)'],
     ),
@@ -116,7 +117,8 @@ PROPS = {
     "C09": dict(
         lean_modules=["L4.Props.C09", "L4.Expect.C09"],
         stages=[dict(name="udp", pkg="./layer4/", test="TestVerifUDP", files=L4 + ["layer4/verif_udp_test.go", "layer4/verif_hooks_test.go"], nq=24, nt=400,
-                     streams=["udp", "utrace"], lean_streams=["utrace"])],
+                     streams=["udp", "utrace"], lean_streams=["utrace"]),
+                dict(FULLSTACK, only_sigs=["udp-echo"])],
         level_text="Kernel-checked on a transition system of servePacket / packetConn (reader goroutine, packets / readCh / closeCh with their capacities, association table, done flag, idle expiry, Close) for every interleaving over any number of client addresses: every datagram an association receives was sent by its own client, associations receive in arrival order without duplication, the table always points to an association of that address, a closed association never receives a later datagram (a fresh one is started), and no channel is ever closed while it may be sent to (the loop never crashes). The invariant (10 conjuncts) is preserved by all seven actions (incl. the datagram dropped because its association was closed while the loop waited for room). The structural fact `Close does not close readCh` is regenerated from the source; the real loop is driven over loopback sockets with 1-6 clients, bursts beyond the channel capacities and four handler behaviours, and judged for ownership, order, reply routing, one live association per client, freshness after end and survival; the hook events of every history (arrive, new / enqueue / drop, close notification, read, close; build tag verif) are linearised and replayed through the runActs function of the model, so a real execution that is not a run of the model (a datagram queued to the association of another client, a second live association for one client, a notification removing a newer association) breaks the correspondence. The pre-repair protocol's crash trace is kept as a kernel-checked witness.",
         level_note='Trusted: Lean kernel, harness, Go channel semantics as modelled, the OS delivering loopback datagrams in order. Partial: datagram loss when an association closes with a full queue is allowed by the model (UDP); the 30 s idle timer is modelled as an action but not exercised in real time; the trace monitor searches for a linearisation of the hook log (reports may be late relative to the operation), the replay through runActs decides.',
         rule='histories: 1-6 client sockets × 3-120 datagrams each (paced or in bursts of 16) plus two late datagrams, handler modes echo / return after one datagram / close then linger / read in 5-byte pieces, leave one half read and close twice; non-trivial = history completed; distinct = distinct summaries',
